@@ -26,6 +26,10 @@ type Plan struct {
 	Advances       []Advance `json:"advances,omitempty"`
 	DueDates       []DueDate `json:"due_dates,omitempty"`
 	TotalsRounding string    `json:"totals_rounding,omitempty"` // totals.rounding supplied as input
+	// CustomerRates, when set, is the tax country of the customer and the
+	// document carries the customer-rates tag: every combo is resolved in that
+	// country's regime.
+	CustomerRates string `json:"customer_rates,omitempty"`
 	// Stale fills every calculated member (line sums and totals, indexes,
 	// totals.*, tax summary) with left-over values: calculation must replace
 	// them all.
@@ -199,6 +203,10 @@ func (p Plan) Doc() map[string]any {
 		d["code"] = "ORD-1"
 	case "delivery":
 		d["code"] = "DEL-1"
+	}
+	if p.CustomerRates != "" {
+		d["$tags"] = []any{"customer-rates"}
+		d["customer"] = obj{"name": "Customer Ltd.", "tax_id": obj{"country": p.CustomerRates}}
 	}
 	if p.Currency != "" {
 		d["currency"] = p.Currency
